@@ -29,6 +29,9 @@ M0 == [enums |-> [Color |-> {"RED", "GREEN"}],
                            Fld("rq", "", TList(TStr), DfReqVal(VList(<<>>))),
                            \* an OBJECT-valued default whose keys the aliaser renames
                            Fld("sub_in", "", TObj("SubIn"), DfVal(VInst("SubIn", << <<"x_coord", DInt(4)>> >>)))>>],
+  \* ID-typed input fields (apischema.graphql.ID and a NewType listed in id_types), alone and in a list
+  IdIn   |-> [kind |-> "object", bases |-> <<>>, resolvers |-> <<>>,
+              fields |-> <<Fld("uid", "", TUid, Req), Fld("ids", "", TList(TId), DfVal(VList(<<>>))), Fld("label", "", TStr, DfVal(DStr("l")))>>],
   EnumIn |-> [kind |-> "object", bases |-> <<>>, resolvers |-> <<>>,
               fields |-> <<Fld("col", "", E, DfVal(VEnum("Color", "GREEN")))>>],
   Node   |-> [kind |-> "interface", bases |-> <<>>, resolvers |-> <<>>, fields |-> <<Fld("id", "", TId, Req)>>],
@@ -98,6 +101,8 @@ Roots ==
     [t |-> TList(E), vs |-> {VList(<<VEnum("Color", "GREEN"), VEnum("Color", "RED")>>)}],
     [t |-> TLit, vs |-> {DStr("x"), DStr("y")}],
     [t |-> TId, vs |-> {DStr("abc")}],
+    [t |-> TUid, vs |-> {DStr("u7")}],
+    [t |-> TList(TOpt(TUid)), vs |-> {VList(<<DStr("1"), DNull, DStr("2")>>)}],
     [t |-> TScore, vs |-> {DInt(4)}],
     [t |-> TBool, vs |-> {DBool(TRUE)}],
     [t |-> TStr, vs |-> {DStr("a")}] }
@@ -118,7 +123,14 @@ Params ==
   { [p |-> Prm("arg_one", TLit, Req), ds |-> {EName("x"), EName("z")}] } \cup
   { [p |-> Prm("arg_one", TList(TCInt), d), ds |-> {DArr(<<DInt(1), DInt(2)>>), DArr(<<DInt(1), DInt(0 - 2)>>), DArr(<<>>)}]
         : d \in {Req, DfVal(VList(<<>>)), DfVal(VList(<<DInt(4)>>))} } \cup
-  { [p |-> Prm("arg_one", TId, Req), ds |-> {DStr("x1")}], [p |-> Prm("arg_one", TScore, Req), ds |-> {DInt(9)}],
+  { [p |-> Prm("arg_one", TId, Req), ds |-> {DStr("x1"), DStr("i:x1")}], [p |-> Prm("arg_one", TScore, Req), ds |-> {DInt(9)}],
+    [p |-> Prm("arg_one", TUid, Req), ds |-> {DStr("u7"), DStr("i:u7")}],
+    [p |-> Prm("arg_one", TOpt(TUid), DfNull), ds |-> {DStr("i:abc")}],
+    [p |-> Prm("arg_one", TList(TId), DfVal(VList(<<>>))), ds |-> {DArr(<<DStr("i:1"), DStr("i:2")>>), DArr(<<DStr("i:1"), DStr("2")>>), DArr(<<DStr("1")>>)}],
+    [p |-> Prm("arg_one", TObj("IdIn"), Req),
+     ds |-> {DObj(<< <<"uid", DStr("i:u7")>> >>), DObj(<< <<"uid", DStr("u7")>> >>),
+             DObj(<< <<"uid", DStr("i:u7")>>, <<"ids", DArr(<<DStr("i:3"), DStr("i:4")>>)>>, <<"label", DStr("i:abc")>> >>),
+             DObj(<< <<"uid", DStr("u7")>>, <<"ids", DArr(<<DStr("3")>>)>>, <<"label", DStr("abc")>> >>)}],
     [p |-> Prm("arg_one", TBool, DfVal(DBool(FALSE))), ds |-> {DBool(TRUE)}] } \cup
   { [p |-> Prm("arg_one", TObj("LeafIn"), Req),
      ds |-> {DObj(<< <<"n", DInt(1)>> >>), DObj(<< <<"n", DInt(1)>>, <<"rq", DArr(<<>>)>> >>), DObj(<< <<"n", DInt(0 - 1)>>, <<"rq", DArr(<<>>)>> >>), DObj(<<>>),
@@ -161,17 +173,21 @@ Eval == /\ phase = "start" /\ phase' = "done" /\ UNCHANGED cfg
                      cases |-> Pairs([v \in cfg.root.vs |-> GSer(M0, cfg.root.t, v)])]
                [] cfg.kind = "param" ->
                     [kind |-> "param", p |-> cfg.prm.p, arg |-> InField(cfg.prm.p.t, cfg.prm.p.def),
-                     cases |-> Pairs([s \in Supplies(cfg.prm.ds) |-> ArgM(M0, cfg.prm.p, s)])]
+                     cases |-> Pairs([s \in Supplies(cfg.prm.ds) |-> [lit |-> ArgM(M0, cfg.prm.p, s, "lit"), var |-> ArgM(M0, cfg.prm.p, s, "var")]])]
                [] OTHER -> [kind |-> "types", typemap |-> TypeMap]))
 Next == Eval
 Spec == Init /\ [][Next]_vars
 
 ---------------------------------------------------------------------------
 \* the code's argument handling is the rule
-ArgLaw == cfg.kind = "param" => \A s \in Supplies(cfg.prm.ds) : ArgM(M0, cfg.prm.p, s) = ArgR(M0, cfg.prm.p, s)
+ArgLaw == cfg.kind = "param" => \A s \in Supplies(cfg.prm.ds) : \A ch \in {"lit", "var"} : ArgM(M0, cfg.prm.p, s, ch) = ArgR(M0, cfg.prm.p, s)
 \* an invalid argument never reaches the resolver, a valid one reaches it as deserialize would build it
 ArgSound == cfg.kind = "param" => \A s \in Supplies(cfg.prm.ds) :
-               (s.k = "given" /\ s.d.k # "null") => ArgM(M0, cfg.prm.p, s) = ADeser(M0, cfg.prm.p.t, s.d)
+               (s.k = "given" /\ s.d.k # "null") => \A ch \in {"lit", "var"} :
+                   ArgM(M0, cfg.prm.p, s, ch) = (LET dd == DecodeIds(M0, cfg.prm.p.t, s.d) IN IF dd = BadId THEN ArgErr ELSE ADeser(M0, cfg.prm.p.t, dd))
+\* output IDs are the encoding of what serialize gives, and decoding them gives it back
+IdRoundTrip == cfg.kind = "root" /\ IsIdType(cfg.root.t) => \A v \in cfg.root.vs :
+                   DecodeIds(M0, cfg.root.t, GSer(M0, cfg.root.t, v)) = v
 \* interfaces: what the code declares is what the GraphQL specification requires
 InterfacesLaw == cfg.kind = "types" => \A n \in Classes : InterfacesM(M0, n) = InterfacesR(M0, n) /\ ImplementsClosed(M0, n)
 \* nullability: non-null unless Optional / Undefined (output), or a None / Undefined / unserializable default (input)
